@@ -25,8 +25,9 @@ column `n` changes more than the binding of `n`:
  (F) FUNCTION SET. `load_and_check_functions` derives functions from the NAMES of the data columns:
      time conversions of a data column are created last and win over those derived from
      functions (`cexLastSource`), even over a p_id aggregation of that name (`cexPidShadow`); a
-     p_id aggregation whose source is neither a rule nor a data column is silently dropped and
-     appears when the source is supplied (`cexPidAppears`); an automatic group sum of the supplied
+     p_id aggregation whose source is neither a rule, a data column nor a time conversion of a
+     data column is silently dropped and appears when the source (`cexPidAppears`) or the column
+     its source is converted from (`cexPidDerived`) is supplied; an automatic group sum of the supplied
      column appears and, if a data column of that name exists, changes the conversion of THAT
      column (`cexGroupSum`).
  (E) EMPTY TABLE (convenience only): an empty int/bool column comes back as an empty float column.
@@ -205,7 +206,7 @@ example : ov_feedReport cexPidShadow "a_m" "a_y" =
   decide +kernel
 
 /-- **(F) is necessary, 3**: the p_id aggregation `b_y` of the automatic group sum `a_m_hh` is
-silently dropped (its source is neither a rule nor a data column), so `b_y` is the time conversion
+silently dropped (its source is neither a rule, a data column nor derived from one), so `b_y` is the time conversion
 of the rule `b_m`; with `a_m_hh` supplied, the aggregation exists and `b_y` is the aggregation. -/
 def cexPidAppears : Input :=
   mk [a_m, rule "b_m" ["x"] (nm "x") (some .float)] [] (d3 ++ [("p_id_recv", I [-1, 0, 0])])
@@ -213,6 +214,33 @@ def cexPidAppears : Input :=
 example : ov_feedReport cexPidAppears "a_m_hh" "b_y" =
     some { shapeArr := true, nonEmpty := true, typeOk := true, fnsStable := false, sameResult := false } := by
   decide +kernel
+
+/-- **(F) is necessary, 3b** (a consequence of the repaired rule "person-pointer aggregations accept
+source columns that time conversions derive from DATA columns"): the source `a_y` of the p_id
+aggregation `b_y` is the time conversion of the RULE `a_m`, so the spec is dropped and `b_y` is the
+time conversion of `b_m`; with `a_m` supplied, `a_y` is derived from a data column, the spec is kept
+and `b_y` is the aggregation. -/
+def cexPidDerived : Input :=
+  mk [a_m, rule "b_m" ["x"] (nm "x") (some .float)] [] (d3 ++ [("p_id_recv", I [-1, 0, 0])])
+    [("b_y", ⟨"p_id_recv", "a_y"⟩)]
+example : ov_feedReport cexPidDerived "a_m" "b_y" =
+    some { shapeArr := true, nonEmpty := true, typeOk := true, fnsStable := false, sameResult := false } := by
+  decide +kernel
+example : ov_fnsCompat cexPidDerived "a_m" "b_y" = false := by decide +kernel
+
+/-- regression examples for the two repaired defects. (1) An aggregation spec over an automatic
+group sum (`mx_hh = max(a_m_hh)`) now works without requesting `a_m_hh`, and `a_m_hh` can be fed
+back (hypotheses of `simulate_feed_back_compat_checked`). (2) A p_id aggregation whose source `a_y`
+is derived from the data column `a_m` is created. -/
+def okSpecSource : Input := { okSys with groupSpecs := [("mx_hh", ⟨.max, some "a_m_hh"⟩)] }
+example : ((simulate { okSpecSource with targets := ["mx_hh"] }).toOption.bind (ov_shown · "mx_hh")) =
+    some ("float", ["7.000000", "7.000000", "8.000000"]) := by decide +kernel
+example : ov_feedHyps' okSpecSource "a_m_hh" "mx_hh" = true := by decide +kernel
+def okPidDerived : Input :=
+  { mk [] [] (d3 ++ [("p_id_recv", I [-1, 0, 0]), ("a_m", F [1, 2, 3])]) [("g", ⟨"p_id_recv", "a_y"⟩)] with
+    targets := ["g"] }
+example : ((simulate okPidDerived).toOption.bind (ov_shown · "g")) =
+    some ("float", ["60.000000", "0.000000", "0.000000"]) := by decide +kernel
 
 /-- **(F) is necessary, 4**: `bewohnt_eigentum_hh` (a user aggregation `any`) is supplied; the data
 column `bewohnt_eigentum_hh_fg` now overrides a NEW automatic group sum of it and is therefore
